@@ -604,7 +604,8 @@ class Shelxfile():
                 self.cycles = self._assign_card(LSCycles(self, spline), line_num)
             elif word == "LIST":
                 # LIST m[#] mult[1] (mult is for list 4 only)
-                self.list = int(spline[1])
+                if len(spline) > 1:
+                    self.list = int(spline[1])
             elif word == "FVAR":
                 # FVAR osf[1] free variables
                 for fvvalue in spline[1:]:
@@ -680,7 +681,8 @@ class Shelxfile():
                     self.eqiv.append(spline[1:])
             elif word == 'EXTI':
                 # EXTI x[0]
-                self.exti = float(spline[1])
+                if len(spline) > 1:
+                    self.exti = float(spline[1])
             elif word == 'EXYZ':
                 # EXYZ atomnames
                 self._append_card(self.restraints, EXYZ(self, spline), line_num)
@@ -778,7 +780,8 @@ class Shelxfile():
                 self.swat = self._assign_card(SWAT(self, spline), line_num)
             elif word == 'TEMP':
                 # TEMP T[20]  -> in Celsius
-                self.temp = float(spline[1].split('(')[0])
+                if len(spline) > 1:
+                    self.temp = float(spline[1].split('(')[0])
                 self.temp_in_kelvin = self.temp + 273.15
             elif word == 'TWIN':
                 # TWIN 3x3 matrix [-1 0 0 0 -1 0 0 0 -1] N[2]
